@@ -1,28 +1,14 @@
-import SemVerif.Syntax
-/-! GENERATED by tools/extract.py from the Rust sources under /repo/src — do not edit.
-Regenerated at the start of every check; the obligations that mention these tables are then re-checked. -/
-namespace SemVerif.Generated
+import SemVerif.Generated
+import SemVerif.Wire
+/-!
+# Inventory — the tabular facts about the Rust source that the hand-written model accounts for
 
-/-- `MAX_PRIORITY_LEVEL_FOR_EXPRESSIONS` -/
-def maxPrio : Nat := 9
-
-/-- `ExpressionOperations::priority` -/
-def prio : Op → Nat
-  | .plus => 5
-  | .minus => 4
-  | .multiply => 9
-  | .divide => 8
-  | .shiftLeft => 9
-  | .shiftRight => 9
-  | .and => 7
-  | .or => 6
-  | .xor => 6
-  | .eq => 7
-  | .notEq => 7
-  | .great => 7
-  | .less => 7
-  | .greatEq => 7
-  | .lessEq => 7
+`SemVerif.Generated` is regenerated from /repo/src on every run; the theorems at the end compare
+it with the tables below (written when the model was written).  A new error kind, instruction
+variant, label stem, panic site (`unwrap`, `expect`, index, counter `+ 1`), statement that mutates
+`self.global` / `self.errors` / `self.context`, or serde attribute breaks one of them.
+-/
+namespace SemVerif.Model
 
 /-- `StateErrorKind` variants in declaration order -/
 def errKinds : List String := ["Common", "ConstantAlreadyExist", "ConstantNotFound", "WrongLetType", "WrongExpressionType", "TypeAlreadyExist", "FunctionAlreadyExist", "ValueNotFound", "ValueNotStruct", "ValueNotStructField", "ValueIsNotMutable", "FunctionNotFound", "FunctionParameterTypeWrong", "ReturnNotFound", "ReturnAlreadyCalled", "IfElseDuplicated", "TypeNotFound", "WrongReturnType", "ConditionExpressionWrongType", "ConditionIsEmpty", "ConditionExpressionNotSupported", "ForbiddenCodeAfterReturnDeprecated", "ForbiddenCodeAfterContinueDeprecated", "ForbiddenCodeAfterBreakDeprecated", "FunctionArgumentNameDuplicated"]
@@ -189,4 +175,34 @@ def serdeShapes : List (String × String × String × List String) := [
   ("block_state.rs", "struct BlockState", "", ["values", "inner_values_name", "labels", "last_register_number", "manual_return", "parent@serialize_with = \"rc_serializer::serialize_option\", deserialize_with = \"rc_serializer::deserialize_option\"", "children@serialize_with = \"rc_serializer::serialize_vec\", deserialize_with = \"rc_serializer::deserialize_vec\"", "context"])
 ]
 
-end SemVerif.Generated
+end SemVerif.Model
+
+namespace SemVerif
+open SemVerif
+
+theorem inv_errKinds : Generated.errKinds = Model.errKinds := by decide
+theorem inv_instrShapes : Generated.instrShapes = Model.instrShapes := by decide
+theorem inv_labelStems : Generated.labelStems = Model.labelStems := by decide
+theorem inv_primNames : Generated.primNames = Model.primNames := by decide
+theorem inv_panicSites : Generated.panicSites = Model.panicSites := by decide
+theorem inv_mutationSites : Generated.mutationSites = Model.mutationSites := by decide +kernel
+theorem inv_serdeShapes : Generated.serdeShapes = Model.serdeShapes := by decide +kernel
+
+/-- the model's error kinds are the source's, in order -/
+theorem inv_errKinds_model :
+    Model.errKinds = [ErrKind.common, .constantAlreadyExist, .constantNotFound, .wrongLetType,
+      .wrongExpressionType, .typeAlreadyExist, .functionAlreadyExist, .valueNotFound, .valueNotStruct,
+      .valueNotStructField, .valueIsNotMutable, .functionNotFound, .functionParameterTypeWrong,
+      .returnNotFound, .returnAlreadyCalled, .ifElseDuplicated, .typeNotFound, .wrongReturnType,
+      .conditionExpressionWrongType, .conditionIsEmpty, .conditionExpressionNotSupported,
+      .forbiddenCodeAfterReturnDeprecated, .forbiddenCodeAfterContinueDeprecated,
+      .forbiddenCodeAfterBreakDeprecated, .functionArgumentNameDuplicated].map ErrKind.wire := by decide
+
+/-- label stems contain no dot (used by the label lemmas) -/
+theorem inv_stems_nodot : ∀ s ∈ Model.labelStems, s.toList.contains '.' = false := by decide
+
+/-- the published priorities stay within the published maximum -/
+theorem inv_prio_le_max : ∀ o : Op, Generated.prio o ≤ Generated.maxPrio := by
+  intro o; cases o <;> decide
+
+end SemVerif
